@@ -94,6 +94,10 @@ var baseGoroutines = -1
 
 // buildOnce builds the files and checks the C04 oracle.
 func buildOnce(files scriggo.Files, name string, isProgram bool) kit.Outcome {
+	return buildOnceOpts(files, name, isProgram, nil)
+}
+
+func buildOnceOpts(files scriggo.Files, name string, isProgram bool, opts *scriggo.BuildOptions) kit.Outcome {
 	if baseGoroutines < 0 {
 		baseGoroutines = runtime.NumGoroutine()
 	}
@@ -101,7 +105,7 @@ func buildOnce(files scriggo.Files, name string, isProgram bool) kit.Outcome {
 	var err error
 	if isProgram {
 		var p *scriggo.Program
-		p, err = scriggo.Build(files, nil)
+		p, err = scriggo.Build(files, opts)
 		if err == nil {
 			o.Class = "program-built"
 			if _, derr := p.Disassemble("main"); derr != nil {
@@ -110,7 +114,7 @@ func buildOnce(files scriggo.Files, name string, isProgram bool) kit.Outcome {
 		}
 	} else {
 		var t *scriggo.Template
-		t, err = scriggo.BuildTemplate(files, name, nil)
+		t, err = scriggo.BuildTemplate(files, name, opts)
 		if err == nil {
 			o.Class = "template-built"
 			_ = t.Disassemble(-1)
@@ -324,6 +328,25 @@ func spaces(tier string) []kit.Space {
 			return map[string]any{"kind": kinds[int(i)/len(counts)], "n": counts[int(i)%len(counts)]}
 		},
 	})
+	// unusual constructs that need a dozen tokens in the right order
+	cons := constructs(tier)
+	sps = append(sps, kit.Space{
+		Name: "constructs",
+		Size: uint64(len(cons)),
+		Eval: func(i uint64) kit.Outcome {
+			c := cons[i]
+			var opts *scriggo.BuildOptions
+			if c.goStmt {
+				opts = &scriggo.BuildOptions{AllowGoStmt: true}
+			}
+			o := buildOnceOpts(c.scriggoFiles(), c.entry, c.entry == "", opts)
+			o.Ops = 1
+			return o
+		},
+		Describe: func(i uint64) any {
+			return map[string]any{"family": cons[i].name, "entry": cons[i].entry, "files": cons[i].files}
+		},
+	})
 	corpus := loadCorpus(maxCorpus)
 	// truncations: one case per (file, offset)
 	var offs []uint64
@@ -377,7 +400,7 @@ func main() {
 		ID:       "C04",
 		Level:    "model_checking",
 		Isolated: true,
-		Rule:     "every string up to the tier's length over a 25-byte lexer alphabet (raw program, raw template in 6 formats, attribute/script/style/code-block wrappers, partial reached by render/import/extends) and over a 33-token Go alphabet (inside {{ }}, {% %}, {%% %%}, a function body, a package-level initialiser); every truncation and every substitution by 12 special bytes at every offset of corpus files up to the tier's size. Each case is a distinct source text; non-trivial = all (every case reaches the lexer), except substitutions that leave the byte unchanged",
+		Rule:     "every string up to the tier's length over a 25-byte lexer alphabet (raw program, raw template in 6 formats, attribute/script/style/code-block wrappers, partial reached by render/import/extends) and over a 33-token Go alphabet (inside {{ }}, {% %}, {%% %%}, a function body, a package-level initialiser); every truncation and every substitution by 12 special bytes at every offset of corpus files up to the tier's size; Disassemble of artefacts with n table entries of each kind for n around 127/128/255/256; and a list of ~1900 generated unusual constructs (types of unallocatable size in 18 shapes, every callee form after defer and go, 16 statements/shows/comments placed in 25 tag/attribute/script/style positions with 0-2 trailing {% end %}, all conversions between format types without a converter, declaration dependency graphs with 2^n paths, nesting depths up to 10^4 (10^5 thorough), huge constant expressions, multi-byte texts around the Disassemble(n) limit). Each case is a distinct source text; non-trivial = all (every case reaches the lexer), except substitutions that leave the byte unchanged",
 		Assumptions: []string{
 			"inputs longer than the bound are explored only as corpus mutations",
 			"hang = no heartbeat for 30 s, re-confirmed by re-running the single input alone 3 times",
